@@ -8,6 +8,13 @@ TRUSTED_BASE = [
 ]
 
 TABLE = {
+    "C20": {
+        "obligations": ["C20_contains", "C20_find_known", "C20_fetch_mentions", "C20_produce_unknown", "C20_produce_local_failure",
+                        "C20_commit_local_failure", "C20_after_reset", "C20_offsets_unknown_topic"],
+        "what": "Theorems: the membership test used by commit / group-offset fetch holds exactly for (topic, partition) pairs of the loaded metadata (C20_contains); every (topic, partition) placed in any per-broker fetch request built from any argument list has a leader in, hence is part of, the loaded metadata (C20_fetch_mentions, by induction over the argument list and the request maps); an unknown destination at any position makes produce fail with unknown-topic-or-partition with the network state untouched (C20_produce_unknown, C20_produce_local_failure), likewise commit (C20_commit_local_failure); after a reset everything is unknown. Correspondence + judge: argument lists mixing loaded / existing-but-not-loaded / non-existent topics and in-range / out-of-range / negative partitions after histories of full loads, subset loads and resets; every decoded request's topics and partitions are checked against what was loaded.",
+        "rule": "scenario = cluster with >= 3 topics (some leaderless partitions) + client + history of 4-13 steps over {load_metadata_all, load_metadata(subset incl. unknown names), reset, fetch_messages, fetch_offsets, list_offsets, fetch_topic_offsets, produce (acks 0/1), commit_offsets, fetch_group_offsets, fetch_group_topic_offset} with partition ids in range / beyond / negative; non-trivial = a request reached a broker; distinct = distinct (operation, result) sequences",
+        "assumptions": ["the cluster does not change between a metadata load and the calls judged against it (metadata staleness is C06's subject)"],
+    },
     "C14": {
         "obligations": ["C14_policy", "C14_bound", "C14_at_most_N", "C14_success_within_limit", "C14_first_other_answer",
                         "C14_exhausted", "C14_terminates", "C14_commit_is_policy", "C14_group_fetch_is_policy",
